@@ -427,3 +427,164 @@ pub fn record_sessions(rest: &[String]) -> anyhow::Result<()> {
     println!("{}", json!({"sessions": n, "static_rejected": statics}));
     Ok(())
 }
+
+// ------------------------------------------------------------------ C02: optimiser-opaque variants
+
+fn collect_consts(j: &J, acc: &mut Vec<J>) {
+    match j {
+        J::Object(m) => {
+            if let Some(k) = m.get("k").and_then(|k| k.as_str()) {
+                if k == "int" || k == "str" {
+                    let mut c = j.clone();
+                    c.as_object_mut().unwrap().remove("line");
+                    if !acc.contains(&c) {
+                        acc.push(c);
+                    }
+                    return;
+                }
+            }
+            for (key, v) in m {
+                if key != "tg" {
+                    collect_consts(v, acc);
+                }
+            }
+        }
+        J::Array(a) => a.iter().for_each(|v| collect_consts(v, acc)),
+        _ => {}
+    }
+}
+
+/// The specification-defined opacifying rewrite: constants are fetched from the list KK bound
+/// by a prelude statement, callees and method receivers go through a one-element list.
+fn opacify(j: &mut J, consts: &[J]) {
+    match j {
+        J::Object(m) => {
+            let k = m.get("k").and_then(|k| k.as_str()).unwrap_or("").to_owned();
+            if k == "int" || k == "str" {
+                let mut c = J::Object(m.clone());
+                c.as_object_mut().unwrap().remove("line");
+                if let Some(i) = consts.iter().position(|x| *x == c) {
+                    *j = json!({"k": "index", "e": {"k": "var", "n": "KK"}, "i": {"k": "int", "v": i}});
+                }
+                return;
+            }
+            for (key, v) in m.iter_mut() {
+                if key != "tg" && key != "params" {
+                    opacify(v, consts);
+                }
+            }
+            if k == "call" {
+                let f = m.get("f").cloned().unwrap();
+                if f["k"] == "var" && f["n"] != "emit" {
+                    m.insert("f".to_owned(), json!({"k": "index", "e": {"k": "list", "items": [f]}, "i": {"k": "int", "v": 0}}));
+                }
+            }
+            if k == "mcall" {
+                let o = m.get("obj").cloned().unwrap();
+                m.insert("obj".to_owned(), json!({"k": "index", "e": {"k": "list", "items": [o]}, "i": {"k": "int", "v": 0}}));
+            }
+        }
+        J::Array(a) => a.iter_mut().for_each(|v| opacify(v, consts)),
+        _ => {}
+    }
+}
+
+/// Run `defs_src` in a module, freeze it, then evaluate `load("prog", "main"); main()` in a
+/// second module: the frozen-and-loaded execution of C02.
+fn run_frozen_loaded(defs_src: &str, globals: &starlark::environment::Globals) -> Option<run::Outcome> {
+    use starlark::environment::Module;
+    use starlark::eval::Evaluator;
+    use starlark::eval::ReturnFileLoader;
+    use starlark::syntax::AstModule;
+    run::OUT.with(|o| o.borrow_mut().clear());
+    let ast = AstModule::parse("prog.star", defs_src.to_owned(), &run::dialect()).ok()?;
+    let frozen = Module::with_temp_heap(|module| {
+        {
+            let mut eval = Evaluator::new(&module);
+            eval.eval_module(ast, globals).ok()?;
+        }
+        module.freeze().ok()
+    })?;
+    let pre = run::OUT.with(|o| std::mem::take(&mut *o.borrow_mut()));
+    if !pre.is_empty() {
+        return None; // the defining module itself emitted: not a pure definition module
+    }
+    let b_src = "load(\"prog\", \"main\")\nmain()\n";
+    let ast_b = AstModule::parse("b.star", b_src.to_owned(), &run::dialect()).ok()?;
+    let mut modules = std::collections::HashMap::new();
+    modules.insert("prog", &frozen);
+    let loader = ReturnFileLoader { modules: &modules };
+    let r = Module::with_temp_heap(|module| {
+        let mut eval = Evaluator::new(&module);
+        eval.set_loader(&loader);
+        match eval.eval_module(ast_b, globals) {
+            Ok(_) => Ok(()),
+            Err(e) => Err((run::err_of(&e), e.span().map(|s| s.filename().to_owned()).unwrap_or_default())),
+        }
+    });
+    let out = run::OUT.with(|o| std::mem::take(&mut *o.borrow_mut()));
+    Some(match r {
+        Ok(()) => run::Outcome { out, kind: String::new(), line: 0, msg: String::new(), parse_error: false },
+        Err(((kind, line, msg), _file)) => run::Outcome { out, kind, line, msg, parse_error: false },
+    })
+}
+
+/// vh record opt <out.ndjson> --seed S --n N --stmts K
+/// Per program three records (same id prefix): plain, opaque, frozen (wrapped programs only).
+pub fn record_opt(rest: &[String]) -> anyhow::Result<()> {
+    let mut out = util::NdWriter::create(&rest[0])?;
+    let seed = util::opt_u64(rest, "--seed", 1);
+    let n = util::opt_u64(rest, "--n", 100);
+    let stmts = util::opt_u64(rest, "--stmts", 6) as usize;
+    let globals = run::globals();
+    let mut statics = 0;
+    let mut frozen_n = 0;
+    for i in 0..n {
+        let mut rng = util::Rng(seed.wrapping_mul(5_000_011).wrapping_add(i));
+        let wrap = rng.chance(3, 5);
+        let k = 2 + rng.below(stmts as u64) as usize;
+        let body = {
+            let mut g = gen::Gen::new(&mut rng);
+            g.module_opt(k, wrap)
+        };
+        let mut consts = Vec::new();
+        collect_consts(&body, &mut consts);
+        let prelude = json!({"k": "assign", "tg": {"k": "var", "n": "KK"}, "e": {"k": "list", "items": consts.clone()}});
+        let mut plain: Vec<J> = vec![prelude.clone()];
+        plain.extend(body.as_array().unwrap().iter().cloned());
+        let mut opaque_body = body.clone();
+        opacify(&mut opaque_body, &consts);
+        let mut opaque: Vec<J> = vec![prelude];
+        opaque.extend(opaque_body.as_array().unwrap().iter().cloned());
+        let id = format!("o{}p{}", seed, i);
+        let (rec_p, stat) = run_ast(&format!("{}-plain", id), J::Array(plain.clone()), &globals);
+        if stat {
+            statics += 1;
+            continue;
+        }
+        let (rec_o, stat_o) = run_ast(&format!("{}-opaque", id), J::Array(opaque), &globals);
+        out.write(&rec_p)?;
+        if !stat_o {
+            out.write(&rec_o)?;
+        }
+        if wrap {
+            // module A = everything but the final `main()` call; lines are those of the plain print
+            let src = rec_p["src"].as_str().unwrap_or("");
+            let mut lines: Vec<&str> = src.lines().collect();
+            lines.pop();
+            let defs_src = format!("{}\n", lines.join("\n"));
+            if let Ok(Some(o)) = util::catch(|| run_frozen_loaded(&defs_src, &globals)) {
+                frozen_n += 1;
+                let mut rec = rec_p.clone();
+                rec["id"] = json!(format!("{}-frozen", id));
+                rec["out"] = json!(o.out);
+                rec["err"] = json!({"kind": o.kind, "line": o.line});
+                rec["msg"] = json!(o.msg);
+                out.write(&rec)?;
+            }
+        }
+    }
+    out.finish()?;
+    println!("{}", json!({"programs": n, "static_rejected": statics, "frozen_variants": frozen_n}));
+    Ok(())
+}
